@@ -340,7 +340,80 @@ class CountingDicts(object):
             yield dict(zip(C.HEADERS['g'], C.row('g', i)))
 
 
+class FakeCursor(object):
+    """Minimal DB-API cursor over N generated rows that counts the rows fetched.  `lazy`: the description is
+    only populated by the first fetch (server-side cursors, as the fromdb docstring recommends for streaming)."""
+
+    DESC = tuple((f, None, None, None, None, None, None) for f in C.HEADERS['g'])
+
+    def __init__(self, cd, lazy):
+        self.cd, self.lazy, self.i, self.description = cd, lazy, 0, None
+
+    def execute(self, query, *args, **kwargs):
+        self.i = 0
+        self.description = None if self.lazy else self.DESC
+        return self
+
+    def __iter__(self):
+        return self
+
+    def __next__(self):
+        if self.i >= self.cd.n:
+            raise StopIteration
+        self.description = self.DESC
+        self.cd.pulled += 1
+        self.i += 1
+        return C.row('g', self.i - 1)
+
+    def fetchall(self):
+        out = []
+        while True:
+            try:
+                out.append(next(self))
+            except StopIteration:
+                return out
+
+    def fetchone(self):
+        try:
+            return next(self)
+        except StopIteration:
+            return None
+
+    def fetchmany(self, size=1):
+        out = []
+        for _ in range(size):
+            r = self.fetchone()
+            if r is None:
+                break
+            out.append(r)
+        return out
+
+    def executemany(self, query, seq):
+        raise NotImplementedError
+
+    def close(self):
+        pass
+
+
+class FakeConnection(object):
+    def __init__(self, cd, lazy):
+        self.cd, self.lazy = cd, lazy
+
+    def cursor(self):
+        return FakeCursor(self.cd, self.lazy)
+
+    def commit(self):
+        pass
+
+    def rollback(self):
+        pass
+
+
 GENSOURCES = {
+    'fromdb(connection)': (lambda cd: etl.fromdb(FakeConnection(cd, False), 'SELECT * FROM t'), 1),
+    'fromdb(connection,lazy description)': (lambda cd: etl.fromdb(FakeConnection(cd, True), 'SELECT * FROM t'), 1),
+    'fromdb(cursor factory,lazy description)': (lambda cd: etl.fromdb(lambda: FakeCursor(cd, True), 'SELECT * FROM t'), 1),
+    'fromdb(cursor)': (lambda cd: etl.fromdb(FakeCursor(cd, False), 'SELECT * FROM t'), 1),
     # name: (factory(counting dicts) -> view, declared read-ahead)
     'fromdicts(generator,sample=3)': (lambda cd: etl.fromdicts(cd.gen(), sample=3), 3),
     'fromdicts(generator,sample=1)': (lambda cd: etl.fromdicts(cd.gen(), sample=1), 1),
